@@ -257,7 +257,8 @@ func evalCase(cs Case) (class, msg string) {
 	rq.Header["accept"] = []string{"lowercase-ordinary"}
 	secret := "SECRET-" + cs.Header + "-VALUE"
 	if cs.Header != "" {
-		rq.Header[cs.Header] = []string{secret}
+		// two values under the same name (two header lines in the dump): both are credentials
+		rq.Header[cs.Header] = []string{secret, "second-" + secret}
 	}
 	rw := fx.NewRW()
 	var under http.ResponseWriter = rw
